@@ -4,7 +4,7 @@ CONSTANTS
   StMaterialise = "all-first"
   RSizes = {1, 10, 4097}
   RMaxLen = 3
-  RThr = {0, 5, 100, 100000}
+  RThr = {0, 5, 100000}
   RLim = {0, 11, 4100}
 INVARIANT ResaveBytes
 CHECK_DEADLOCK FALSE
